@@ -126,6 +126,58 @@ func constrainedScalars(s *pubschema.Set, n pubschema.Node, depth int, prefix []
 	}
 }
 
+// requiredDrops lists, for the object members (at most depth names deep) of an
+// object node, instances of that member from which one member its own schema
+// requires is missing (the empty object when it requires one only): a nested
+// object the library forgets to validate shows up as accepted although the
+// schema refuses it.
+func requiredDrops(s *pubschema.Set, n pubschema.Node, depth int, prefix []string, out *[]struct {
+	path []string
+	inst any
+}) {
+	if depth == 0 {
+		return
+	}
+	names, nodes := s.Props(n)
+	for _, name := range names {
+		if strings.HasPrefix(name, "$") {
+			continue
+		}
+		c := nodes[name]
+		p := append(append([]string{}, prefix...), name)
+		target := c
+		if s.Kind(c) == "array" {
+			it, ok := s.Items(c)
+			if !ok {
+				continue
+			}
+			target = it
+			p = append(p, "[]")
+		}
+		if s.Kind(target) != "object" {
+			continue
+		}
+		rs := s.Resolve(target)
+		if req, ok := rs.S["required"].([]any); ok && len(req) > 0 {
+			full, _ := s.Sample(target, 0).(map[string]any)
+			for _, r := range req {
+				rn, _ := r.(string)
+				inst := map[string]any{}
+				for k, v := range full {
+					if k != rn {
+						inst[k] = v
+					}
+				}
+				*out = append(*out, struct {
+					path []string
+					inst any
+				}{append(append([]string{}, p...), "-"+rn), inst})
+			}
+		}
+		requiredDrops(s, target, depth-1, p, out)
+	}
+}
+
 // withPath returns a copy of inst (a sample of node n) in which path exists
 // and ends in leaf; intermediate objects are sampled from the schema.
 func withPath(s *pubschema.Set, n pubschema.Node, inst any, path []string, leaf any) any {
@@ -249,6 +301,17 @@ func enumAbsentMembers(yield func(MutCase) bool) {
 					for _, sp := range paths {
 						inst := withPath(s, target, valid, sp.path, badValue)
 						if !emit(b, cptr, "absent:bad:"+name+"/"+strings.Join(sp.path, "/"), wrap(inst)) {
+							return false
+						}
+					}
+					var drops []struct {
+						path []string
+						inst any
+					}
+					requiredDrops(s, target, 2, nil, &drops)
+					for _, d := range drops {
+						inst := withPath(s, target, valid, d.path[:len(d.path)-1], d.inst)
+						if !emit(b, cptr, "absent:incomplete:"+name+"/"+strings.Join(d.path, "/"), wrap(inst)) {
 							return false
 						}
 					}
